@@ -37,6 +37,7 @@ type step struct {
 }
 
 type c15Case struct {
+	Multi bool   `json:"multi,omitempty"` // multi-statement session: the rewritten text also passes the statement splitter
 	Steps []step `json:"steps"`
 }
 
@@ -115,6 +116,11 @@ func genTemplate(t *rapid.T, n int) string {
 			}
 			s += "?"
 		}
+		if n >= 2 && rapid.Bool().Draw(t, "limit_ph") {
+			// the last placeholder is the LIMIT operand
+			s = s[:strings.LastIndex(s, ",?")]
+			return s + ") ORDER BY a LIMIT ?"
+		}
 		return s + ") ORDER BY a LIMIT 10"
 	case 4:
 		s := "UPDATE " + tag + " SET "
@@ -170,6 +176,7 @@ func genTemplate(t *rapid.T, n int) string {
 
 func genCase(t *rapid.T) c15Case {
 	var c c15Case
+	c.Multi = stmtfix.Pick(t, "multi", 4) == 0
 	ns := rapid.IntRange(1, 4).Draw(t, "steps")
 	for i := 0; i < ns; i++ {
 		var s step
@@ -254,9 +261,11 @@ func judge(template, got, modeText string, params []sqllex.Param) (known, detail
 		m2 := m
 		m2.NoBackslashEscapes = false
 		used = nil
-		if r3 := sqllex.Match(template, got, m2, params, altNonFiniteOrZeroTime(&used)); r3.OK {
+		r3 := sqllex.Match(template, got, m2, params, altNonFiniteOrZeroTime(&used))
+		if r3.OK {
 			return "C15-F1", base
 		}
+		base += " | not explained by the known escaping defect, read with backslash escapes: " + r3.Detail
 	}
 	return "", base
 }
@@ -269,13 +278,16 @@ func checkCase(c c15Case) (o pbt.Outcome) {
 			return
 		}
 	}
-	e, err := stmtfix.Open("c15", nil)
+	e, err := stmtfix.OpenWith(stmtfix.Options{Prefix: "c15", MultiStatements: c.Multi})
 	if err != nil {
 		o.Skip = "fixture: " + err.Error()
 		return
 	}
 	defer e.Close()
 	label := func(l string) { o.Labels = append(o.Labels, l) }
+	if c.Multi {
+		label("multi_statement_session")
+	}
 	var known, knownWhat string
 	for si, s := range c.Steps {
 		doSet := func() bool {
@@ -384,7 +396,7 @@ func checkCase(c c15Case) (o pbt.Outcome) {
 }
 
 func TestC15Bind(t *testing.T) {
-	pbt.Run(t, pbt.Spec{ID: "C15", Sub: "bind", Quick: 1000, Thorough: 12000,
+	pbt.Run(t, pbt.Spec{ID: "C15", Sub: "bind", Quick: 1000, Thorough: 6000,
 		Rule:  "1-4 steps per session, each: optional SET sql_mode (12 mode lists, 5 spellings, DEFAULT) before or after prepare, a template of 10 shapes with 1-4 placeholders, values of every binary-protocol type (hostile byte strings, integer extremes per width/signedness, float/double specials and random bits, DATE/DATETIME/TIMESTAMP/TIME of each legal length, NULL by bitmap and by type); non-trivial = a checked execution under NO_BACKSLASH_ESCAPES, or with a string containing ' \\ or NUL, or a float/temporal value",
 		Floor: 0.5}, genCase, checkCase)
 }
